@@ -88,7 +88,8 @@ class HandlerCollection:
                 # ``f > x`` will also match when ``f > f > x`` does, so
                 # we can't remove it even if it matches ``f``, we have to
                 # keep it around unconditionally.
-                next_selectors.append((selector, acc))
+                if (selector, acc) not in next_selectors:
+                    next_selectors.append((selector, acc))
             cachekey = (fn, selector)
             capmap = _selector_fit_cache.get(cachekey)
             if capmap is None:
@@ -114,8 +115,14 @@ class HandlerCollection:
                 itor.register(acc, capmap, close_at_exit=is_template)
                 # Now that we have entered the outer interactor, the children
                 # elements of the current selector can be triggered
+                # When a function in the middle of a call path is
+                # re-entered, the same (child, accumulator) pair would be
+                # added again and a Total accumulator would log each value
+                # once per way of matching the path.
                 next_selectors.extend(
-                    (child, acc) for child in selector.children
+                    (child, acc)
+                    for child in selector.children
+                    if (child, acc) not in next_selectors
                 )
         rval = HandlerCollection(next_selectors)
         return itor, rval
